@@ -63,7 +63,7 @@ def cases(tier, seed):
     rnd = random.Random(17000 + seed)
     for (cname, kw), dtype, chunk in itertools.product(_constraint_specs(), ["float64", "float32"], range(3)):
         yield {"kind": "constraint", "cls": cname, "kw": kw, "dtype": dtype, "chunk": chunk, "seed": rnd.randrange(10**6)}
-    reps = 1 if tier == "quick" else 8
+    reps = 1 if tier == "quick" else 40
     for _ in range(reps):
         for spec in _module_specs():
             for regime in ("interior", "nearbound", "large", "oob"):
